@@ -109,6 +109,10 @@ def annotate(g, rng, p_loc=0.35, p_fallible=0.15):
                 if rng.random() < 0.5:
                     for s in syms:
                         s["sel"] = rng.random() < 0.5
+        elif kind == "unit" and rng.random() < 0.5:
+            form = "useru"     # `=> mark(tag)`: user code run for its side effect, also on empty alternatives
+            for s in syms:
+                s["sel"] = rng.random() < 0.4
         else:
             form = "none"
             if rng.random() < 0.4:
@@ -139,8 +143,8 @@ def eval_case(cg, start, n, inject):
     G, sp = tla_grammar(cg)
     P = []
     for p in cg["prods"]:
-        P.append({"tag": p["tag"], "form": "user" if p["form"] == "usera" else p["form"], "esym": p.get("esym", 0),
-                  "exact": p["form"] in ("user", "fallible", "recover"), "unit": cg["kinds"][p["lhs"]] == "unit", "syms": p["syms"],
+        P.append({"tag": p["tag"], "form": "user" if p["form"] in ("usera", "useru") else p["form"], "esym": p.get("esym", 0),
+                  "exact": p["form"] in ("user", "fallible", "recover", "useru"), "unit": cg["kinds"][p["lhs"]] == "unit", "syms": p["syms"],
                   "fail": p["fail"] if p["fail"]["on"] else {"on": False, "s": 1, "m": 1, "r": 0}})
     for s in cg["starts"]:
         P.append({"tag": 0, "form": "start", "esym": 0, "exact": False, "unit": False, "syms": [{"k": "sym", "i": 1, "sel": False}],
@@ -205,7 +209,7 @@ def render_alt(cg, p):
         return "%s => recovered(%d, &ee, el, er, kids![%s])," % (" ".join(parts), p["tag"], ", ".join(names))
     for j, s in enumerate(p["syms"]):
         t = _symtext(cg, p, s)
-        if form in ("user", "fallible"):
+        if form in ("user", "fallible", "useru"):
             if s["sel"]:
                 nm = bind_name(cg, j)
                 names.append(nm)
@@ -220,6 +224,8 @@ def render_alt(cg, p):
         if gp:
             return "%s => node(%d + (%s as u32), kids![%s])," % (body, p["tag"], gp, ", ".join(names))
         return "%s => node(%d, kids![%s])," % (body, p["tag"], ", ".join(names))
+    if form == "useru":
+        return "%s => mark(%d)," % (body, p["tag"])
     if form == "usera":
         return "%s => node(%d, kids!(<>))," % (body, p["tag"])
     if form == "fallible":
@@ -270,7 +276,9 @@ def render(cg, algo="lane", backend="table"):
                 pre += '#[precedence(level="%d")] ' % cg["prec"]["lev"][pi]
             if cg.get("prec") and pi in cg["prec"]["assoc"]:
                 pre += '#[assoc(side="%s")] ' % cg["prec"]["assoc"][pi]
-            if p["form"] == "none" and not p["syms"]:
+            if p["form"] == "useru" and not p["syms"]:
+                body.append(pre + "=> mark(%d)," % p["tag"])
+            elif p["form"] == "none" and not p["syms"]:
                 body.append(pre + "=> (),")  # an empty alternative needs `=>`; `()` is "no code"
             else:
                 body.append(pre + render_alt(cg, p))
